@@ -129,8 +129,10 @@ class DocGen:
                 continue
             if name in ("level", "order"):
                 out[name] = rng.randint(1, 3)
-            elif name in ("meta", "id"):
+            elif name == "id":
                 out[name] = rng.choice([None, 1, 2])
+            elif name == "meta":
+                out[name] = rng.choice([None, 1, 2, "m", [1, "a", None], {"k": [1, 2], "z": {"y": False}}, True])
             else:
                 out[name] = rng.choice(["a.png", "b", "x y"])
         return out or None
